@@ -1698,6 +1698,9 @@ func parseCertificate(in *certificate) (*Certificate, error) {
 				// RFC 5280, 4.2.1.3
 				var usageBits asn1.BitString
 				_, err := asn1.Unmarshal(e.Value, &usageBits)
+				if err != nil && !asn1.AllowPermissiveParsing {
+					return nil, err
+				}
 
 				if err == nil {
 					var usage int
@@ -1713,6 +1716,9 @@ func parseCertificate(in *certificate) (*Certificate, error) {
 				// RFC 5280, 4.2.1.9
 				var constraints basicConstraints
 				_, err := asn1.Unmarshal(e.Value, &constraints)
+				if err != nil && !asn1.AllowPermissiveParsing {
+					return nil, err
+				}
 
 				if err == nil {
 					out.BasicConstraintsValid = true
